@@ -60,6 +60,13 @@ PROPS = {
         "rule": "one evaluation = one delivery of an honestly produced (proof, public inputs, version) message under a channel fault: public-input vector edits (every position +1 / 0 / swap / drop / duplicate, seeded replace, append, prepend, clear), delivery to the verifier of a near-miss circuit (one selector, one constant, one operand wire, one public-input row, one constraint more/fewer; skipped and counted when the verifier bytes are identical), of another label (byte flipped / appended / prepended / truncated / empty), of another protocol version (all ordered pairs V2,V3 x V1,V2,V3), duplicate delivery. Oracle by message identity: only the exact honest tuple may be accepted; a panic is a violation; RM-verify mirrors every decision. Non-trivial = the delivered tuple differs from the honest one.",
         "assumptions": ["V1 has no prover in the library, so V1 appears only on the verifier side of the version pairs"],
     },
+    "C15": {
+        "level": "exploration",
+        "runs": {"quick": 500, "thorough": 12000},
+        "budget_s": {"quick": 400, "thorough": 3000},
+        "rule": "one evaluation = (a) one route pair: a generated program (unused witnesses, repeated and distinct selector tuples, selectors drawn from the compressor's built-in constant table incl. Hades constants in half of the runs, zero-valued public inputs, public input on first/last row, raw rows) x label x SRS degree from {needed-7, needed-1, needed, needed+1, needed/2, 2*needed, 2*needed-1} compiled directly (compile_with_circuit or compile::<C>) and through compress()+compile_with_compressed under independently chosen pool / schedule / hash-seed environments; both must fail, or both succeed with byte-identical Prover::to_bytes and Verifier::to_bytes, and they must succeed exactly when the degree admits the circuit; or (b) one hostile description fed to compile_with_compressed: structure-aware edits of a valid description (public-input rows out of range / unsorted / duplicated, witness count too small / huge / sparse, scalar / polynomial / witness indices out of range, non-canonical scalar, extra constraints / polynomials / scalars beyond the capacity, trailing bytes inside the payload and after the deflate stream, 32-bit array headers announcing 2^32-1 elements, deflate bombs, flipped Hades flag, no multiplication gates, dropped leading rows, empty description) and the disk-fault catalogue; must-reject edits must yield Err, everything else Err or keys that survive their own encoding, pass the strict parsers and prove without panicking; peak allocation <= 64 KiB x max_constraints(pp) + 8 MiB. Non-trivial = every route pair (two independent environments) and every description that differs from the valid one.",
+        "assumptions": ["the allocation budget is calibrated with >= 4x head-room over the largest valid description the parameters admit"],
+    },
     "C16": {
         "level": "exploration",
         "runs": {"quick": 600, "thorough": 16000},
